@@ -148,6 +148,29 @@ def probe_wrappers(D, N, seed):
     m = np.asarray(ic.RandomMultiChannelICGenerator((base, ic.GaussianRandomField(D), ic.ScaledICGenerator(base, 2.0)))(N, key=key))
     res["multi_shape"] = list(m.shape)
     ok = ok and m.shape == (3,) + (N,) * D
+    # the normalisation options act on the field as a whole: zero mean removes the mean mode ONLY (every other Fourier
+    # mode of the draw is untouched), unit std / unit max rescale by one global constant
+    import jax.numpy as jnp
+    from exponax.ic._base_ic import normalize_ic   # noqa: PLC0415  (public behaviour of every generator's options)
+    rng = np.random.default_rng(seed)
+    w = rng.normal(size=(1,) + (N,) * D) + 0.7
+    z = np.asarray(normalize_ic(jnp.asarray(w), zero_mean=True, std_one=False, max_one=False))
+    res["zero_mean_only_mean_mode"] = float(np.max(np.abs(z - (w - w.mean()))))
+    ok = ok and res["zero_mean_only_mean_mode"] < 1e-12
+    z = np.asarray(normalize_ic(jnp.asarray(w), zero_mean=True, std_one=True, max_one=False))
+    res["std_one_global"] = float(np.max(np.abs(z - (w - w.mean()) / w.std())))
+    ok = ok and res["std_one_global"] < 1e-12
+    z = np.asarray(normalize_ic(jnp.asarray(w), zero_mean=False, std_one=False, max_one=True))
+    res["max_one_global"] = float(np.max(np.abs(z - w / np.max(np.abs(w)))))
+    ok = ok and res["max_one_global"] < 1e-12
+    # through a generator: the zero-mean draw keeps every non-mean mode of the un-normalised draw
+    from exponax import spectral as sp
+    g0 = np.asarray(ic.GaussianRandomField(D, powerlaw_exponent=2.5, zero_mean=False)(N, key=key))
+    g1 = np.asarray(ic.GaussianRandomField(D, powerlaw_exponent=2.5, zero_mean=True)(N, key=key))
+    h0 = np.asarray(sp.fft(jnp.asarray(g0)))[0].ravel()
+    h1 = np.asarray(sp.fft(jnp.asarray(g1)))[0].ravel()
+    res["generator_zero_mean_modes"] = float(np.max(np.abs(h1[1:] - h0[1:]))) / (float(np.max(np.abs(h0))) + 1e-300)
+    ok = ok and res["generator_zero_mean_modes"] < 1e-10 and abs(h1[0]) < 1e-9 * (float(np.max(np.abs(h0))) + 1)
     res["ok"] = bool(ok)
     return res
 
